@@ -436,7 +436,7 @@ Section RoundTrip.
                     flat_map toks_of (flat_map (fun g : str * list ctree => let (k', ts) := g in List.map (fun t' => to_otree k' t') ts) kids) ++ [TEnd ([], k)])).
     { intros pre tpre Hpa Hpb. cbn [enc_elem].
       rewrite !enc_attrs_app, Hpa, enc_attrs_attrs, Hkattrs. cbn [opt_app app]. rewrite app_nil_r.
-      rewrite !ocm_app, Hpb, body_attrs, (Hbody (fun key x => enc_elem P key x) (fun _ _ => eq_refl)). cbn [opt_app app]. reflexivity. }
+      rewrite !ocm_app, Hpb, body_attrs, (Hbody (fun key x => enc_elem P key x) (fun _ _ => eq_refl)). cbn [opt_app app]. unfold lname. rewrite <- app_assoc. reflexivity. }
     cbn [cval to_otree toks_of].
     destruct attrs as [|a attrs]; [destruct kids as [|g kids]|].
     - (* a leaf *)
@@ -452,4 +452,182 @@ Section RoundTrip.
         * cbn. unfold enc_entry. rewrite content_class. reflexivity.
       + rewrite (Hmap [] []); reflexivity.
   Qed.
+
+  (* --- what the decoder makes of it --- *)
+  Lemma elem_label_plain k : elem_label P ([], k) = k.
+  Proof. unfold elem_label. cbn [fst snd]. destruct (keep_ns P && raw_token P); reflexivity. Qed.
+
+  Lemma attr_key_plain nm : attr_key P ([], nm) = attr_prefix P ++ nm.
+  Proof. unfold attr_key. cbn [fst snd]. destruct (keep_ns P); reflexivity. Qed.
+
+  Lemma oname_to_otree k t : oname (to_otree k t) = ([], k).
+  Proof. destruct t; reflexivity. Qed.
+
+  Definition kid_groups (kids : list (str * list ctree)) : list (str * list xval) :=
+    List.map (fun g => (fst g, List.map (cval P) (snd g))) kids.
+  Definition attr_groups (attrs : list (str * str)) : list (str * list xval) :=
+    List.map (fun a => (attr_prefix P ++ fst a, [XStr (snd a)])) attrs.
+
+  Lemma attr_entries_flat attrs :
+    List.map (fun a => (attr_key P (fst a), XStr (snd a))) (List.map (fun a => (([], fst a), snd a)) attrs) = flat_groups (attr_groups attrs).
+  Proof.
+    induction attrs as [|[nm v] attrs IH]; [reflexivity|].
+    cbn [List.map fst snd]. rewrite IH, attr_key_plain. reflexivity.
+  Qed.
+
+  Lemma kid_entries_flat (kids : list (str * list ctree)) :
+    Forall (fun g => Forall (fun t => forall k, val_of trim P (to_otree k t) = cval P t) (snd g)) kids ->
+    List.map (fun k => (elem_label P (oname k), val_of trim P k))
+      (flat_map (fun g : str * list ctree => let (k', ts) := g in List.map (fun t' => to_otree k' t') ts) kids) =
+    flat_groups (kid_groups kids).
+  Proof.
+    induction 1 as [|[k ts] kids Hts _ IH]; [reflexivity|].
+    cbn [flat_map]. rewrite map_app, IH. unfold flat_groups, kid_groups. cbn [List.map flat_map fst snd]. f_equal.
+    clear -Hts. cbn [snd] in Hts. induction Hts as [|t ts Ht _ IH]; [reflexivity|].
+    cbn [List.map]. rewrite IH, oname_to_otree, elem_label_plain, Ht. reflexivity.
+  Qed.
+
+  Lemma class_neq k1 k2 : classify P k1 <> classify P k2 -> k1 <> k2.
+  Proof. intros H E. subst. apply H. reflexivity. Qed.
+
+  Lemma groups_nodup attrs (kids : list (str * list ctree)) :
+    NoDup (List.map fst attrs) -> NoDup (List.map fst kids) ->
+    Forall (fun g => classify P (fst g) = KElem) kids ->
+    NoDup (List.map fst (attr_groups attrs ++ kid_groups kids)).
+  Proof.
+    intros Ha Hk Hc. rewrite map_app. unfold attr_groups, kid_groups. rewrite !map_map. cbn [fst].
+    induction attrs as [|[nm v] attrs IH]; [exact Hk|].
+    inversion Ha as [|? ? Hnotin Ha']; subst. cbn [List.map fst app]. constructor; [|exact (IH Ha')].
+    intro Hin. apply in_app_or in Hin as [Hin|Hin].
+    - apply in_map_iff in Hin as ([nm2 v2] & E & Hin). cbn [fst] in E. apply app_inv_head in E. subst nm2.
+      apply Hnotin. apply in_map_iff. exists (nm, v2). split; [reflexivity|exact Hin].
+    - apply in_map_iff in Hin as (g & E & Hin). rewrite Forall_forall in Hc. specialize (Hc g Hin).
+      rewrite E in Hc. rewrite attr_class in Hc. discriminate.
+  Qed.
+
+  Lemma val_ok t : forall k, cok t -> val_of trim P (to_otree k t) = cval P t.
+  Proof.
+    induction t as [attrs text kids IHkids] using ctree_ind'. intros k Hok.
+    inversion Hok as [? ? ? Htext Hnda Hndk Hkids]; subst.
+    assert (IH' : Forall (fun g => Forall (fun t => forall k, val_of trim P (to_otree k t) = cval P t) (snd g)) kids).
+    { rewrite Forall_forall in *. intros g Hg. rewrite Forall_forall. intros t Ht k0.
+      specialize (IHkids g Hg). rewrite Forall_forall in IHkids. apply (IHkids t Ht).
+      destruct (Hkids g Hg) as (_ & _ & Hc). rewrite Forall_forall in Hc. exact (Hc t Ht). }
+    cbn [to_otree val_of cval].
+    rewrite attr_entries_flat, (kid_entries_flat kids IH').
+    assert (Hflat : flat_groups (attr_groups attrs) ++ flat_groups (kid_groups kids) = flat_groups (attr_groups attrs ++ kid_groups kids)).
+    { unfold flat_groups. rewrite flat_map_app. reflexivity. }
+    rewrite Hflat.
+    assert (Hg : add_all (flat_groups (attr_groups attrs ++ kid_groups kids)) [] = attr_groups attrs ++ kid_groups kids).
+    { apply (add_groups (attr_groups attrs ++ kid_groups kids) []).
+      - cbn [List.map app]. apply groups_nodup; try assumption.
+        rewrite Forall_forall in *. intros g Hg. exact (proj1 (Hkids g Hg)).
+      - apply Forall_app. split.
+        + unfold attr_groups. rewrite Forall_forall. intros g Hg. apply in_map_iff in Hg as (a & <- & _). discriminate.
+        + unfold kid_groups. rewrite Forall_forall in *. intros g Hg. apply in_map_iff in Hg as (g0 & <- & Hg0). cbn [snd].
+          destruct (Hkids g0 Hg0) as (_ & Hne & _). destruct (snd g0); [congruence|discriminate]. }
+    destruct attrs as [|a attrs]; [destruct kids as [|g kids]|].
+    - (* a leaf *)
+      cbn [attr_groups kid_groups List.map app flat_groups flat_map]. unfold texts_data.
+      destruct text as [s|].
+      + destruct Htext as [Ht Hne]. cbn [List.map filter]. rewrite Ht. destruct s; [congruence|reflexivity].
+      + cbn [List.map filter]. rewrite trim_nil. reflexivity.
+    - (* no attributes, children *)
+      assert (Hnn : flat_groups (attr_groups [] ++ kid_groups (g :: kids)) <> []).
+      { intro E0. rewrite E0 in Hg. cbn in Hg. discriminate. }
+      destruct (flat_groups (attr_groups [] ++ kid_groups (g :: kids))) as [|e es] eqn:E; [congruence|].
+      rewrite Hg. cbn [attr_groups List.map app]. unfold kid_groups. rewrite map_map. cbn [fst snd].
+      unfold texts_data. destruct text as [s|].
+      + destruct Htext as [Ht Hne]. cbn [List.map filter]. rewrite Ht. destruct s; [congruence|reflexivity].
+      + reflexivity.
+    - assert (Hnn : flat_groups (attr_groups (a :: attrs) ++ kid_groups kids) <> []).
+      { intro E0. rewrite E0 in Hg. cbn in Hg. discriminate. }
+      destruct (flat_groups (attr_groups (a :: attrs) ++ kid_groups kids)) as [|e es] eqn:E; [congruence|].
+      rewrite Hg. rewrite map_app. unfold attr_groups, kid_groups. rewrite !map_map. cbn [fst snd group_val].
+      unfold texts_data. destruct text as [s|].
+      + destruct Htext as [Ht Hne]. cbn [List.map filter]. rewrite Ht. destruct s; [congruence|reflexivity].
+      + reflexivity.
+  Qed.
+
+  (* --- the top level --- *)
+  Lemma elem_key_facts k : classify P k = KElem ->
+    has_prefix (proc_prefix P) k = false /\ str_eqb k (directive_name P) = false /\ str_eqb k (xml_decl_key P) = false.
+  Proof.
+    unfold classify. intro H.
+    destruct (has_prefix (proc_prefix P) k) eqn:E1; [discriminate|].
+    destruct (str_eqb k (directive_name P)) eqn:E2; [discriminate|].
+    repeat split. destruct (str_eqb k (xml_decl_key P)) eqn:E3; [|reflexivity].
+    apply str_eqb_eq in E3. subst k. unfold xml_decl_key in E1. rewrite has_prefix_app in E1. discriminate.
+  Qed.
+
+  Definition doc_ok (doc : list (str * list ctree)) : Prop :=
+    doc <> [] /\ NoDup (List.map fst doc) /\
+    Forall (fun g => classify P (fst g) = KElem /\ snd g <> [] /\ Forall cok (snd g)) doc.
+
+  Definition doc_forest (doc : list (str * list ctree)) : list otree :=
+    flat_map (fun g : str * list ctree => let (k', ts) := g in List.map (fun t' => to_otree k' t') ts) doc.
+
+  Lemma enc_top_doc doc : Forall (fun g => classify P (fst g) = KElem /\ snd g <> [] /\ Forall cok (snd g)) doc ->
+    enc_top P (List.map (fun g => (fst g, group_val (List.map (cval P) (snd g)))) doc) = Some (forest_toks (doc_forest doc)) /\
+    enc_decl P (List.map (fun g => (fst g, group_val (List.map (cval P) (snd g)))) doc) = [].
+  Proof.
+    induction 1 as [|[k ts] doc (Hc & Hne & Hoks) _ (IH1 & IH2)]; [split; reflexivity|].
+    cbn [fst snd] in *. destruct (elem_key_facts k Hc) as (F1 & F2 & F3).
+    cbn [List.map enc_top enc_decl fst snd]. rewrite F3, F1, F2, IH1, IH2. split; [|reflexivity].
+    rewrite (enc_group k ts Hne).
+    - cbn [opt_app]. unfold forest_toks, doc_forest. cbn [flat_map]. rewrite flat_map_app. reflexivity.
+    - rewrite Forall_forall in *. intros t Ht. exact (enc_ok t k (Hoks t Ht)).
+  Qed.
+
+  Lemma decode_trailing_newline toks : decode_toks trim P (toks ++ [TChar [10]]) = decode_toks trim P toks.
+  Proof.
+    unfold decode_toks. rewrite d_run_app. destruct (Xml.d_run trim P toks (d_init)) as [st|]; [|reflexivity].
+    cbn [Xml.d_run Xml.d_step]. rewrite trim_newline. reflexivity.
+  Qed.
+
+  Theorem xml_roundtrip doc : doc_ok doc ->
+    exists toks, encode_toks P (cdoc P doc) = Some toks /\ decode_toks trim P toks = XOk (cdoc P doc).
+  Proof.
+    intros (Hne & Hnd & Hall).
+    destruct (enc_top_doc doc Hall) as (E1 & E2).
+    exists (forest_toks (doc_forest doc) ++ [TChar [10]]). split.
+    - unfold encode_toks, cdoc. rewrite E1, E2. reflexivity.
+    - rewrite decode_trailing_newline, xml_decode_denotes. f_equal.
+      assert (IH' : Forall (fun g => Forall (fun t => forall k, val_of trim P (to_otree k t) = cval P t) (snd g)) doc).
+      { rewrite Forall_forall in *. intros g Hg. rewrite Forall_forall. intros t Ht k0. apply val_ok.
+        destruct (Hall g Hg) as (_ & _ & Hc). rewrite Forall_forall in Hc. exact (Hc t Ht). }
+      unfold forest_val. destruct (doc_forest doc) as [|t0 f0] eqn:Ef.
+      + (* the forest of a non-empty document with non-empty groups is not empty *)
+        destruct doc as [|[k ts] doc]; [congruence|]. inversion Hall as [|? ? (_ & Hts & _) _]; subst. cbn [snd] in Hts.
+        destruct ts; [congruence|]. unfold doc_forest in Ef. cbn in Ef. discriminate.
+      + rewrite <- Ef. unfold doc_forest. rewrite (kid_entries_flat doc IH').
+        rewrite (add_groups (kid_groups doc) []).
+        * unfold cdoc, kid_groups. cbn [app]. rewrite map_map. reflexivity.
+        * cbn [List.map app]. unfold kid_groups. rewrite map_map. exact Hnd.
+        * unfold kid_groups. rewrite Forall_forall in *. intros g Hg. apply in_map_iff in Hg as (g0 & <- & Hg0). cbn [snd].
+          destruct (Hall g0 Hg0) as (_ & Hne0 & _). destruct (snd g0); [congruence|discriminate].
+  Qed.
 End RoundTrip.
+
+(* ================= the default preferences meet the hypotheses ================= *)
+Lemma default_content_class : classify default_xprefs (content_name default_xprefs) = KContent.
+Proof. vm_compute. reflexivity. Qed.
+
+Lemma default_attr_class nm : classify default_xprefs (attr_prefix default_xprefs ++ nm) = KAttr.
+Proof. vm_compute. reflexivity. Qed.
+
+Theorem xml_roundtrip_default doc : doc_ok ascii_trim default_xprefs doc ->
+  exists toks, encode_toks default_xprefs (cdoc default_xprefs doc) = Some toks /\
+               decode_toks ascii_trim default_xprefs toks = XOk (cdoc default_xprefs doc).
+Proof.
+  exact (xml_roundtrip ascii_trim default_xprefs eq_refl eq_refl default_content_class default_attr_class doc).
+Qed.
+
+(* the two grouping properties for the function the decoder uses, from the empty node *)
+Theorem group_values {A : Type} (kvs : list (str * A)) k :
+  find_key k (add_all kvs []) = match values_of k kvs with [] => None | vs => Some vs end.
+Proof. rewrite add_all_find. reflexivity. Qed.
+
+Theorem group_keys {A : Type} (kvs : list (str * A)) :
+  List.map fst (add_all kvs []) = first_keys [] (List.map fst kvs).
+Proof. rewrite add_all_keys. reflexivity. Qed.
